@@ -604,6 +604,16 @@ def xlib_calls():
         'bipartite_random:2x2': lambda s: sorted(g.bipartite_random(2, 2, .5, seed=s).edges()),
         'bipartite_random_regular:2x2:1': lambda s: sorted(g.bipartite_random_regular(2, 2, 1, seed=s).edges()),
         'bipartite_random_regular:2x2:2': lambda s: sorted(g.bipartite_random_regular(2, 2, 2, seed=s).edges()),
+        # the seed given by position (it is the parameter after the sizes)
+        'bipartite_random_left_regular:2x3:2:positional':
+            lambda s: sorted(g.bipartite_random_left_regular(2, 3, 2, s).edges()),
+        'bipartite_random_m_edges:2x2:1:positional': lambda s: sorted(g.bipartite_random_m_edges(2, 2, 1, s).edges()),
+        'bipartite_random:2x2:positional': lambda s: sorted(g.bipartite_random(2, 2, .5, s).edges()),
+        'bipartite_random_regular:2x2:1:positional': lambda s: sorted(g.bipartite_random_regular(2, 2, 1, s).edges()),
+        'split_random_edges:K3:1:positional':
+            lambda s: (lambda G: (g.split_random_edges(G, 1, s), sorted(G.edges()))[1])(g.Graph.complete_graph(3)),
+        'RandomKCNF:1,2,2:positional': lambda s: [list(c) for c in RandomKCNF(1, 2, 2, s).clauses()],
+        'RandomKXOR:1,2,2:positional': lambda s: [list(c) for c in RandomKXOR(1, 2, 2, s).clauses()],
         'RandomKCNF:1,2,2': lambda s: [list(c) for c in RandomKCNF(1, 2, 2, seed=s).clauses()],
         'RandomKCNF:2,2,2': lambda s: [list(c) for c in RandomKCNF(2, 2, 2, seed=s).clauses()],
         'RandomKCNF:1,2,2:planted': lambda s: [list(c) for c in RandomKCNF(
